@@ -44,13 +44,15 @@ def ensure():
             raise ValueError(f"cost {c!r} not in the table")
 
         def _init_population(self):
+            self._script_k = 0                   # invocations of optimization_step in this run
             self._population = [self._init_agent(self._pos(c)) for c in self._config.init]
 
         def optimization_step(self):
             sim = kernel.ACTIVE
             calls = sim.obs.setdefault("scripted_steps", []) if sim is not None else []
             calls.append(self._current_cycle)
-            k = len(calls)                       # number of invocations so far (independent of the cycle counter)
+            self._script_k = getattr(self, "_script_k", 0) + 1
+            k = self._script_k                   # number of invocations in this run (independent of the cycle counter)
             row = self._config.script[min(k - 1, len(self._config.script) - 1)]
             self._population = [self._init_agent(self._pos(c)) for c in row]
 
